@@ -113,6 +113,46 @@ func c18MultiBind(first, second, third string) string {
 	return ""
 }
 
+// c18SameSegment: one regex segment (a bind whose expression has a group of its own, then another bind) ends
+// one route and sits in the middle of another; in either registration order each route's handler reads its
+// own parameters.
+func c18SameSegment(leafFirst bool, kind, id string) string {
+	f := flamego.NewWithLogger(io.Discard)
+	var got [2]string
+	var n [2]int
+	seg := "/files/{kind: /(img|doc)s/}-{id}"
+	regs := []func(){
+		func() {
+			f.Get(seg, func(c flamego.Context) { got[0] = c.Param("kind") + "|" + c.Param("id"); n[0] = c.ParamInt("id") })
+		},
+		func() {
+			f.Get(seg+"/raw", func(c flamego.Context) { got[1] = c.Param("kind") + "|" + c.Param("id"); n[1] = c.ParamInt("id") })
+		},
+	}
+	if !leafFirst {
+		regs[0], regs[1] = regs[1], regs[0]
+	}
+	var pan interface{}
+	func() {
+		defer func() { pan = recover() }()
+		regs[0]()
+		regs[1]()
+		f.ServeHTTP(&c01Spy{hdr: http.Header{}}, newReq("GET", "/files/"+kind+"s-"+id))
+		f.ServeHTTP(&c01Spy{hdr: http.Header{}}, newReq("GET", "/files/"+kind+"s-"+id+"/raw"))
+	}()
+	if pan != nil {
+		return fmt.Sprintf("panicked: %v", pan)
+	}
+	want := kind + "s|" + id
+	wn, _ := strconv.Atoi(id)
+	for i, what := range []string{"the route that ends with the segment", "the route that goes on below the segment"} {
+		if got[i] != want || n[i] != wn {
+			return fmt.Sprintf("%s read kind|id = %q and ParamInt(id) = %d, expected %q and %d", what, got[i], n[i], want, wn)
+		}
+	}
+	return ""
+}
+
 // c18Rewrite: a handler reads the query, the request's query string is replaced (as a middleware that
 // strips or rewrites parameters does), and the handler reads again: the accessors answer for the request
 // as it is when they are called.
@@ -680,6 +720,21 @@ func c18Run(r *core.Run) {
 			}
 		}
 	}
+	for _, leafFirst := range []bool{true, false} {
+		for _, kind := range []string{"img", "doc"} {
+			for _, id := range []string{"42", "x", "007"} {
+				l.Evals++
+				l.Transitions += 2
+				l.Traces++
+				l.NonTrivial++
+				if bad := c18SameSegment(leafFirst, kind, id); bad != "" {
+					l.Violate("param-of-a-segment-shared-by-two-routes", bad, c18Case{Mode: "same-segment", RawHex: fmt.Sprintf("%x", kind), Raw: id, Absent: leafFirst})
+				} else {
+					l.Class("param:segment-shared-by-two-routes")
+				}
+			}
+		}
+	}
 	for _, a := range []string{"0", "7", "12", "2024"} {
 		for _, b := range []string{"a", "ab", "q"} {
 			for _, c := range []string{"t", "9", "zz"} {
@@ -768,6 +823,8 @@ func c18Replay(raw json.RawMessage) (bool, string) {
 		bad, _, _ = c18CookieRead(w, s, c.Absent)
 	case "cookie-roundtrip":
 		bad = c18RoundTrip(s)
+	case "same-segment":
+		bad = c18SameSegment(c.Absent, s, c.Raw)
 	case "multibind":
 		bad = c18MultiBind(s, c.Raw, c.Inner)
 	case "rewrite":
